@@ -218,7 +218,8 @@ CLAIMS["C07"] = dict(
    text="Partial (clauses ii-iv on the error-construction path this repository owns; clause i -- refuses exactly what the "
         "host interpreter refuses -- cannot be a theorem, see DESIGN.md section 11; it is searched: every explored text that "
         "the generated module accepts is also given to the host's ast.parse, incl. the doctest examples of the host's own "
-        "test_syntax.py, and a disagreement is reported with the text). Coq (Props/C07.v, instances of the C14 line "
+        "test_syntax.py and the WHOLE single-token edit neighbourhood of one valid program per grammar construct, and a "
+        "disagreement is reported with the text). Coq (Props/C07.v, instances of the C14 line "
         "theorems): for every raw stream obeying tokenize's contract, every history and every line range touched by pulled "
         "tokens, fetching the error text does not raise and yields the real lines, identically with and without a path. On "
         "the implementation: token-level deletion/insertion/replacement/duplication edits of the test sources (incl. blank "
